@@ -46,6 +46,9 @@ pub struct BackendState {
     pub open: BTreeMap<ResourceId, (String, bool)>, // rid -> (path, append)
     pub next_rid: ResourceId,
     pub file_type_id: usize,
+    pub dns_type_id: usize,
+    /// open resolver resources: rid -> position in the (fixed) address list
+    pub resolvers: BTreeMap<ResourceId, usize>,
     pub type_ids_pushed: u64,
     /// async completions not yet released by the scheduler
     pub pending: Vec<(ProcessId, EffectResult)>,
@@ -70,6 +73,8 @@ impl BackendState {
             open: BTreeMap::new(),
             next_rid: 1,
             file_type_id: 0,
+            dns_type_id: 0,
+            resolvers: BTreeMap::new(),
             type_ids_pushed: 0,
             pending: Vec::new(),
             ready: Vec::new(),
@@ -214,6 +219,41 @@ impl EffectBackend for SimBackend {
                     (op, Ok(Some(Ok((Value::ok(), vec![])))))
                 }
             }
+            // a second kind of resource: an iterator over resolved addresses (all immediate, as in the
+            // native backend); recorded as Open / Read / Close so that the ownership model applies as is
+            NativeEffect::DnsResolve { hostname } => {
+                let op = BackendOp::Open { path: format!("dns:{}", String::from_utf8_lossy(&hostname)) };
+                if fault.is_some() {
+                    st.fired("resolve_error");
+                    (op, Err(Error::InvalidArgument("DNS resolution failed: injected".to_string())))
+                } else {
+                    let rid = st.next_rid;
+                    st.next_rid += 1;
+                    st.resolvers.insert(rid, 0);
+                    let ty = st.dns_type_id;
+                    (op, Ok(Some(Ok((Value::Resource(rid, ty), vec![])))))
+                }
+            }
+            NativeEffect::DnsNext { resource_id } => {
+                let op = BackendOp::Read { rid: resource_id };
+                match st.resolvers.get_mut(&resource_id) {
+                    None => (op, Err(Error::InvalidArgument(format!("Resource {} not found", resource_id)))),
+                    Some(pos) if *pos < 2 => {
+                        *pos += 1;
+                        let ip = vec![10, 0, 0, *pos as u8];
+                        (op, Ok(Some(Ok((Value::Binary(Binary::Heap(0)), vec![ip])))))
+                    }
+                    Some(_) => (op, Ok(Some(Ok((Value::nil(), vec![]))))),
+                }
+            }
+            NativeEffect::DnsClose { resource_id } => {
+                let op = BackendOp::Close { rid: resource_id };
+                if st.resolvers.remove(&resource_id).is_none() {
+                    (op, Err(Error::InvalidArgument(format!("Resource {} not found", resource_id))))
+                } else {
+                    (op, Ok(Some(Ok((Value::ok(), vec![])))))
+                }
+            }
             _ => (BackendOp::Other, Err(Error::InvalidArgument("effect not supported by SimBackend".to_string()))),
         };
         let new_rid = match &res {
@@ -251,7 +291,8 @@ impl EffectBackend for SimBackend {
 
     fn close_resource(&mut self, resource_id: ResourceId) {
         let mut st = self.0.lock().unwrap();
-        let was_open = st.open.remove(&resource_id).is_some();
+        let was_file = st.open.remove(&resource_id).is_some();
+        let was_open = st.resolvers.remove(&resource_id).is_some() || was_file;
         let step = st.step;
         st.history.push(BackendRec::AutoClose { step, rid: resource_id, was_open });
     }
@@ -261,6 +302,9 @@ impl EffectBackend for SimBackend {
         st.type_ids_pushed += 1;
         if let Some(i) = resources.iter().position(|n| n == "File") {
             st.file_type_id = i;
+        }
+        if let Some(i) = resources.iter().position(|n| n == "DnsResolver") {
+            st.dns_type_id = i;
         }
     }
 }
